@@ -29,6 +29,37 @@ package keeper
 //@ ensures C06/vault-eq: err == nil ==> vaultGap(ctx) == old(vaultGap(ctx))
 
 //@ func (Keeper).Borrow
+//@ ensures C07/lending-cap: err == nil ==> 10 * (old(k.GetParams(ctx).TotalValue) - old(bal(ctx, modAddr("stablestake"), k.GetDepositDenom(ctx))) + amount.Amount) <= 9 * old(k.GetParams(ctx).TotalValue)
 //@ requires addr != modAddr("stablestake")
 //@ requires amount.Amount >= 0
 //@ ensures C06/vault-eq: err == nil ==> vaultGap(ctx) == old(vaultGap(ctx))
+
+// ---- Bond / Unbond (C06 vault equation, C07 fair rate) ------------------------------------------
+// Shares are issued and redeemed at the live redemption rate (TotalValue / share supply at the
+// moment of the call; 1 for an empty vault), rounded half-even to whole units.
+//@ define liveRate(ctx) := ite(k.GetRedemptionRate(ctx) == 0, dec(1), k.GetRedemptionRate(ctx))
+
+//@ func (msgServer).Bond
+//@ decabstract
+//@ requires msg.Amount >= 0
+//@ requires unbech32(msg.Creator) != modAddr("stablestake")
+//@ requires unbech32(msg.Creator) != modAddr("commitment")
+//@ ensures C06/vault-eq: err == nil ==> vaultGap(goCtx) == old(vaultGap(goCtx))
+//@ ensures C06,C07/value-grows-by-deposit: err == nil ==> k.GetParams(goCtx).TotalValue == old(k.GetParams(goCtx).TotalValue) + msg.Amount
+//@ ensures C07/cash-in-equals-deposit: err == nil ==> bal(goCtx, modAddr("stablestake"), old(k.GetDepositDenom(goCtx))) == old(bal(goCtx, modAddr("stablestake"), k.GetDepositDenom(goCtx))) + msg.Amount
+//@ ensures C07/shares-at-live-rate: err == nil ==> supply(goCtx, types.GetShareDenom()) - old(supply(goCtx, types.GetShareDenom())) == roundInt(decQuo(dec(msg.Amount), old(liveRate(goCtx))))
+//@ ensures C07/shares-go-to-depositor: err == nil ==> committedOf(keeperOf("commitment").GetCommitments(goCtx, unbech32(msg.Creator)), types.GetShareDenom()) - old(committedOf(keeperOf("commitment").GetCommitments(goCtx, unbech32(msg.Creator)), types.GetShareDenom())) == supply(goCtx, types.GetShareDenom()) - old(supply(goCtx, types.GetShareDenom()))
+
+//@ func (msgServer).Unbond
+//@ decabstract
+//@ requires msg.Amount >= 0
+//@ requires unbech32(msg.Creator) != modAddr("stablestake")
+//@ requires unbech32(msg.Creator) != modAddr("commitment")
+//@ ensures C06/vault-eq: err == nil ==> vaultGap(goCtx) == old(vaultGap(goCtx))
+//@ ensures C07/payout-at-live-rate: err == nil ==> bal(goCtx, unbech32(msg.Creator), old(k.GetDepositDenom(goCtx))) - old(bal(goCtx, unbech32(msg.Creator), k.GetDepositDenom(goCtx))) == roundInt(decMul(dec(msg.Amount), old(k.GetRedemptionRate(goCtx))))
+//@ ensures C06,C07/value-falls-by-payout: err == nil ==> k.GetParams(goCtx).TotalValue == old(k.GetParams(goCtx).TotalValue) - roundInt(decMul(dec(msg.Amount), old(k.GetRedemptionRate(goCtx))))
+//@ ensures C07/shares-burned: err == nil ==> supply(goCtx, types.GetShareDenom()) == old(supply(goCtx, types.GetShareDenom())) - msg.Amount
+
+//@ func (Keeper).GetRedemptionRate
+//@ ensures C07/rate-is-value-per-share: supply(ctx, types.GetShareDenom()) != 0 ==> result == decQuo(dec(k.GetParams(ctx).TotalValue), dec(supply(ctx, types.GetShareDenom())))
+//@ ensures C07/rate-of-empty-vault: supply(ctx, types.GetShareDenom()) == 0 ==> result == 0
